@@ -65,9 +65,10 @@ def run_check(pid, tier, seed):
             res.violations.append(Violation('lean-obligation', 'a Lean obligation regenerated from /repo no longer checks',
                                             {'problems': lean['problems']}, found_input=False))
     known, fresh = findings.split(pid, res.violations)
-    for k in findings.replayed_known(pid, mod):
-        print(f'KNOWN-FINDING: property={pid} {k}')
     seen = set()
+    for k in findings.replayed_known(pid, mod):
+        seen.add(f'KNOWN-FINDING: property={pid} {k}')
+        print(f'KNOWN-FINDING: property={pid} {k}')
     for v, entry in known:
         line = f'KNOWN-FINDING: property={pid} {entry["text"]}'
         if line not in seen:
